@@ -112,3 +112,21 @@ Proof.
 Qed.
 Lemma gq_norm_eq a : gq_eq (gq_norm a) a.
 Proof. split; cbn [gq_norm fst snd]; apply Qred_correct. Qed.
+
+(** facts about the field inverse used by the Fock-space example (Series/FockExample.v) *)
+Lemma q_diff_inv p q :
+  p <> q ->
+  (inject_Z (Z.of_nat p) - inject_Z (Z.of_nat q))
+  * / (inject_Z (Z.of_nat p) - inject_Z (Z.of_nat q)) == 1.
+Proof.
+  intros H. apply Qmult_inv_r. intros E.
+  apply H. apply Nat2Z.inj. apply (proj1 (inject_Z_injective _ _)).
+  rewrite <- (Qplus_0_l (inject_Z (Z.of_nat q))), <- E. ring.
+Qed.
+
+Lemma q_inv_opp x : / (- x) == - / x.
+Proof.
+  destruct (Qeq_dec x 0) as [E|E].
+  - rewrite E. reflexivity.
+  - field. exact E.
+Qed.
